@@ -172,6 +172,17 @@ def _parse_vevent(
 
     # Calculate duration
     duration_seconds = end_ts - start_ts
+    if (
+        isinstance(start_dt, datetime)
+        and isinstance(end_dt, datetime)
+        and start_dt.tzinfo is end_dt.tzinfo
+    ):
+        # Occurrences of a recurring event last their duration on the local
+        # clock (RecurringPattern adds it to the wall-clock start), so read it
+        # off the wall clock: the elapsed time of the first instance differs
+        # when that instance spans a UTC-offset change
+        wall = end_dt.replace(tzinfo=None) - start_dt.replace(tzinfo=None)
+        duration_seconds = wall.days * 86400 + wall.seconds
 
     # Extract metadata dict
     metadata = {
